@@ -102,6 +102,12 @@ def session(concepts, seed, sid):
         rec('duplicate-objects-error', lambda: C(objects + objects[:2], properties, list(bools) + list(bools[:2])))
         rec('duplicate-properties-error', lambda: C(objects, properties + properties[-2:], [b + b[-2:] for b in bools]))
         rec('shape-error', lambda: C(objects, properties, bools[:-1]))
+        many = [f'{w}{i}' for i in range(8) for w in words[:16]]          # 128 labels
+        dup = many + [many[5], many[77], many[5], many[120]]
+        rec('long-duplicate-objects-error', lambda: C(dup, properties, [bools[0]] * len(dup)))
+        rec('long-duplicate-properties-error', lambda: C(objects, dup, [tuple([True] * len(dup))] * n))
+        rec('long-duplicate-definition-error', lambda: D(dup, properties, [bools[0]] * len(dup)))
+        rec('long-overlap-error', lambda: C(many[:110], ['x'] + many[3:9][::-1] + many[100:104], [tuple([False] * 11)] * 110))
         rec('fromdict-missing', lambda: C.fromdict({'objects': objects}))
         rec('fromdict-nonstring', lambda: C.fromdict({'objects': objects, 'properties': [1, 2], 'context': [()] * n}))
         rec('unknown-format', lambda: C.fromstring('x', frmat='nope'))
